@@ -175,7 +175,7 @@ func buildUniverse(t *kernel.Tape) (u *universe) {
 			deleted:   t.Chance(1, 4, "prof-deleted"),
 			qlog:      t.Chance(1, 2, "qlog"),
 			iplog:     t.Chance(1, 2, "iplog"),
-			filtering: true,
+			filtering: t.Chance(4, 5, "prof-filtering"),
 			autoDevs:  t.Chance(1, 2, "auto-devices"),
 			mode: kernel.Pick(t, []dnsmsg.BlockingMode{
 				&dnsmsg.BlockingModeNullIP{}, &dnsmsg.BlockingModeNullIP{}, &dnsmsg.BlockingModeNXDOMAIN{}, &dnsmsg.BlockingModeREFUSED{},
@@ -734,7 +734,15 @@ func run(s *kernel.Sim, prop, cfg string) {
 			OnCountResponses: func(context.Context, *dns.Msg, netip.Addr) {},
 		},
 		FilterStorage: &agdtest.FilterStorage{
-			OnForConfig: func(context.Context, filter.Config) filter.Interface { return flt },
+			OnForConfig: func(_ context.Context, c filter.Config) filter.Interface {
+				if c == nil {
+					// What the stack asks for when the profile or the device
+					// has filtering switched off.
+					return filter.Empty{}
+				}
+
+				return flt
+			},
 			OnHasListID: func(filter.ID) bool { return true },
 		},
 		QueryLog: &agdtest.QueryLog{OnWrite: func(_ context.Context, e *querylog.Entry) error {
@@ -1324,10 +1332,10 @@ func checkC15(s *kernel.Sim, i int, r *request, u *universe, who string, sn *see
 	}
 	host := strings.TrimSuffix(lname, ".")
 	wantReq, wantResp := "", ""
-	if r.behaviour == "reqblock" {
+	if r.behaviour == "reqblock" && d.prof.filtering {
 		wantReq = "||" + host + "^"
 	}
-	if r.behaviour == "respblock" {
+	if r.behaviour == "respblock" && d.prof.filtering {
 		wantResp = "||" + host + "^"
 	}
 
